@@ -167,7 +167,7 @@ Definition wtrees (w : work) : trees := (wA w, wB w).
 
 (** the only premise: a conflict name differs from the path it is derived from
     (the real name is the path with a non-empty suffix appended) *)
-Lemma action_blocks_apply a b w pa : (forall p d, cname p d <> p) ->
+Lemma action_blocks_apply a b w pa : (pa.2 <> ConfBoth \/ forall p d, cname p d <> p) ->
   foldl blk_apply (wtrees w) (action_blocks a b w pa) = wtrees (apply a b w pa).
 Proof. intros Hcn. unfold action_blocks, Bisync.apply, wtrees. destruct (wErr w) eqn:He; [reflexivity|].
   destruct pa as [p act]. destruct act; unfold copy; cbn [foldl blk_apply fst snd].
@@ -176,7 +176,8 @@ Proof. intros Hcn. unfold action_blocks, Bisync.apply, wtrees. destruct (wErr w)
   - reflexivity.
   - reflexivity.
   - reflexivity.
-  - destruct (a !! p) as [fa|], (b !! p) as [fb|]; try reflexivity.
+  - destruct Hcn as [Hcn|Hcn]; [exfalso; apply Hcn; reflexivity|].
+    destruct (a !! p) as [fa|], (b !! p) as [fb|]; try reflexivity.
     destruct (dge fa fb).
     + destruct (wB w !! p) as [lc|] eqn:E1; [|reflexivity].
       rewrite lookup_insert_ne by apply Hcn. rewrite E1.
@@ -192,10 +193,19 @@ Proof. intros Hcn. unfold action_blocks, Bisync.apply, wtrees. destruct (wErr w)
     + destruct (wB w !! p); reflexivity.
 Qed.
 
+Lemma plan_blocks_apply_gen a b w pl :
+  Forall (fun pa : K * action => pa.2 <> ConfBoth \/ forall p d, cname p d <> p) pl ->
+  foldl blk_apply (wtrees w) (plan_blocks a b w pl) = wtrees (foldl (apply a b) w pl).
+Proof. intros Hpl. revert w; induction Hpl as [|pa pl Hpa Hpl IH]; intros w; cbn [plan_blocks foldl]; [reflexivity|].
+  rewrite foldl_app, action_blocks_apply by exact Hpa. apply IH. Qed.
+
 Lemma plan_blocks_apply a b w pl : (forall p d, cname p d <> p) ->
   foldl blk_apply (wtrees w) (plan_blocks a b w pl) = wtrees (foldl (apply a b) w pl).
-Proof. intros Hcn. revert w; induction pl as [|pa pl IH]; intros w; cbn [plan_blocks foldl]; [reflexivity|].
-  rewrite foldl_app, action_blocks_apply by exact Hcn. apply IH. Qed.
+Proof. intros Hcn. apply plan_blocks_apply_gen, Forall_forall. intros pa _. right. exact Hcn. Qed.
+
+Lemma plan_blocks_apply_nc a b w pl : Forall (fun pa : K * action => pa.2 <> ConfBoth) pl ->
+  foldl blk_apply (wtrees w) (plan_blocks a b w pl) = wtrees (foldl (apply a b) w pl).
+Proof. intros Hnc. apply plan_blocks_apply_gen. eapply Forall_impl; [exact Hnc|]. intros pa Hpa. left. exact Hpa. Qed.
 
 (** ** Names for the parts of a run *)
 Definition w0_of (s : state) : work :=
